@@ -233,9 +233,18 @@ fn guarded_on<T: Send + 'static>(stack: usize, f: impl FnOnce() -> T + Send + 's
     }
 }
 
+/// The recursion limit is the caller's statement of how much nesting the stack may have to carry (that is what the
+/// comment at DEFAULT_RECURSION_LIMIT says it is for): a case that raises the limit above the default gets a
+/// stack in proportion, 2 KiB per permitted nesting level (the default limit of 500 on the default 1 MiB).  What
+/// is checked is thus a linear bound: stack use <= 2 KiB x (min(limit, nesting) + 1), whatever the input.
+fn stack_for(rl: usize) -> usize {
+    stack_bytes().max(rl.saturating_add(12).saturating_mul(2048).min(64 << 20))
+}
+
 fn observe_guarded(line: &str) -> Ran<Obs> {
     let line = line.to_string();
-    guarded(move || observe(&parse_case(&line)))
+    let rl = parse_case(&line).rl;
+    guarded_on(stack_for(rl), move || observe(&parse_case(&line)))
 }
 
 fn err_classes(o: &Obs) -> String {
